@@ -1271,7 +1271,19 @@ fn float_forms<R: ModeTag, const B: Word>(c: &FlCase, ctx: &Ctx) -> Out {
             v.push(("powf ref", fv!(x.powf(&y))));
             v.push(("num_traits::Pow<&FBig> val", fv!(num_traits::Pow::pow(x.clone(), &y))));
             v.push(("num_traits::Pow<&FBig> ref", fv!(num_traits::Pow::pow(&x, &y))));
+            // like every binary operation of FBig, powf works at the larger of the two precisions
+            v.push(("Context::powf at Context::max of both", fv!(Context::max(x.context(), y.context()).powf(x.repr(), y.repr()))));
             agree(&mut out, "FBig powf (num-traits)", Any, v);
+            // the same with the precisions the other way round (exponent more precise than the base)
+            let x1: FBig<R, B> = FBig::from_parts(IBig::from(2 + (c.p % 7) as i64), 0);
+            let y1 = b.clone();
+            if c.b.exp.abs() <= 6 && c.pb <= 60 && c.pb > 0 {
+                let mut v: Forms = Vec::new();
+                v.push(("powf ref", fv!(x1.powf(&y1))));
+                v.push(("num_traits::Pow<&FBig> ref", fv!(num_traits::Pow::pow(&x1, &y1))));
+                v.push(("Context::powf at Context::max of both", fv!(Context::max(x1.context(), y1.context()).powf(x1.repr(), y1.repr()))));
+                agree(&mut out, "FBig powf, exponent more precise than the base", Any, v);
+            }
         }
         let mut v: Forms = Vec::new();
         v.push(("DivEuclid/RemEuclid ref.ref (quotient as a float)", fv!((FBig::<R, B>::from((&a).div_euclid(&b)), (&a).rem_euclid(&b)))));
